@@ -162,4 +162,226 @@ theorem markRuns_keeps_best (key : Hit → Int × Int) (l : List Hit) :
       · exact List.mem_cons_self ..
       · exact List.mem_cons_of_mem _ wc
 
+/-! ### with keys grouped by the sort, at most one hit per key survives a marking pass
+
+Since the seventh repair `starts.Less` / `ends.Less` compare both coordinates, so the hits that
+share a start (end) point are neighbours after the sort, whatever the sort does with equal keys. -/
+
+/-- lexicographic order on `(Abpos, Bbpos)` / `(Aepos, Bepos)` -/
+def keyLe (a b : Int × Int) : Prop := a.1 < b.1 ∨ (a.1 = b.1 ∧ a.2 ≤ b.2)
+
+theorem keyLe_refl (a : Int × Int) : keyLe a a := Or.inr ⟨rfl, Int.le_refl _⟩
+
+theorem keyLe_trans {a b c : Int × Int} (h1 : keyLe a b) (h2 : keyLe b c) : keyLe a c := by
+  unfold keyLe at *; omega
+
+theorem keyLe_antisymm {a b : Int × Int} (h1 : keyLe a b) (h2 : keyLe b a) : a = b := by
+  unfold keyLe at *
+  have e1 : a.1 = b.1 := by omega
+  have e2 : a.2 = b.2 := by omega
+  exact Prod.ext e1 e2
+
+/-- two hits that both still carry a score `≥ 0` do not share the key -/
+def NoShare (key : Hit → Int × Int) (a b : Hit) : Prop := 0 ≤ a.score → 0 ≤ b.score → key a ≠ key b
+
+theorem NoShare.symm {key : Hit → Int × Int} {a b : Hit} (h : NoShare key a b) : NoShare key b a :=
+  fun hb ha e => h ha hb e.symm
+
+/-- the key does not read the score -/
+def KeyIgnoresScore (key : Hit → Int × Int) : Prop := ∀ (h : Hit) (s : Int), key { h with score := s } = key h
+
+/-- a relation that marking can only make easier: it constrains hits with a score `≥ 0` only -/
+def MarkClosed (R : Hit → Hit → Prop) : Prop :=
+  ∀ a b a' b', Marked a a' → Marked b b' → R a b → R a' b'
+
+theorem noShare_markClosed (key : Hit → Int × Int) : MarkClosed (NoShare key) := by
+  intro a b a' b' ma mb h ha hb
+  have ea := ma.eq_of_nonneg ha
+  have eb := mb.eq_of_nonneg hb
+  subst ea; subst eb
+  exact h ha hb
+
+theorem pairwise_replace {R : Hit → Hit → Prop} (hc : MarkClosed R) (l1 l2 : List Hit) (x x' : Hit) (m : Marked x x')
+    (h : (l1 ++ x :: l2).Pairwise R) : (l1 ++ x' :: l2).Pairwise R := by
+  rw [List.pairwise_append, List.pairwise_cons] at h ⊢
+  obtain ⟨h1, ⟨h2, h3⟩, h4⟩ := h
+  refine ⟨h1, ⟨fun b hb => hc _ _ _ _ m (Marked.rfl' b) (h2 b hb), h3⟩, ?_⟩
+  intro a ha b hb
+  rcases List.mem_cons.mp hb with e | e
+  · subst e; exact hc _ _ _ _ (Marked.rfl' a) m (h4 a ha x List.mem_cons_self)
+  · exact h4 a ha b (List.mem_cons_of_mem _ e)
+
+/-- a marking pass keeps every pairwise relation that marking can only make easier -/
+theorem markRun_pairwise (key : Hit → Int × Int) {R : Hit → Hit → Prop} (hc : MarkClosed R) :
+    ∀ (rest acc : List Hit) (best : Hit) (mid : List Hit),
+      (acc.reverse ++ best :: (mid.reverse ++ rest)).Pairwise R → (markRun key acc best mid rest).Pairwise R := by
+  intro rest
+  induction rest with
+  | nil => intro acc best mid h; simpa [markRun] using h
+  | cons h rest ih =>
+    intro acc best mid hp
+    simp only [markRun]
+    split
+    · apply ih
+      simpa [List.reverse_append, List.append_assoc] using hp
+    · split
+      · apply ih
+        have := pairwise_replace hc acc.reverse (mid.reverse ++ h :: rest) best { best with score := -1 } (Or.inr rfl) hp
+        simpa [List.reverse_append, List.append_assoc] using this
+      · apply ih
+        have hp' : ((acc.reverse ++ best :: mid.reverse) ++ h :: rest).Pairwise R := by
+          simpa [List.append_assoc] using hp
+        have := pairwise_replace hc (acc.reverse ++ best :: mid.reverse) rest h { h with score := -1 } (Or.inr rfl) hp'
+        simpa [List.reverse_append, List.append_assoc] using this
+
+theorem markRuns_pairwise (key : Hit → Int × Int) {R : Hit → Hit → Prop} (hc : MarkClosed R) (l : List Hit)
+    (h : l.Pairwise R) : (markRuns key l).Pairwise R := by
+  cases l with
+  | nil => simp [markRuns]
+  | cons x rest => exact markRun_pairwise key hc rest [] x [] (by simpa using h)
+
+/-- the invariant of one pass over a list sorted by the key: afterwards no two hits with a score
+    `≥ 0` share the key -/
+theorem markRun_distinct (key : Hit → Int × Int) (hk : KeyIgnoresScore key) :
+    ∀ (rest acc : List Hit) (best : Hit) (mid : List Hit),
+      (∀ x ∈ acc, keyLe (key x) (key best)) →
+      (∀ x ∈ mid, key x = key best ∧ x.score < 0) →
+      (∀ y ∈ rest, keyLe (key best) (key y)) →
+      rest.Pairwise (fun a b => keyLe (key a) (key b)) →
+      (∀ x ∈ acc, 0 ≤ x.score → key x ≠ key best) →
+      acc.Pairwise (NoShare key) →
+      (markRun key acc best mid rest).Pairwise (NoShare key) := by
+  intro rest
+  induction rest with
+  | nil =>
+    intro acc best mid _ a2 _ _ a5 a6
+    simp only [markRun]
+    rw [List.pairwise_append, List.pairwise_cons, List.pairwise_reverse]
+    refine ⟨a6.imp NoShare.symm, ⟨?_, ?_⟩, ?_⟩
+    · intro b hb _ hb'
+      have := (a2 b (List.mem_reverse.mp hb)).2
+      omega
+    · rw [List.pairwise_reverse]
+      apply List.Pairwise.imp_of_mem _ (List.pairwise_of_forall (R := fun _ _ => True) (fun _ _ => trivial))
+      intro a b ha _ _ _ ha'
+      have := (a2 a ha).2
+      omega
+    · intro a ha b hb ha' hb'
+      rcases List.mem_cons.mp hb with e | e
+      · subst e; exact a5 a (List.mem_reverse.mp ha) ha'
+      · have := (a2 b (List.mem_reverse.mp e)).2
+        omega
+  | cons h rest ih =>
+    intro acc best mid a1 a2 a3 a4 a5 a6
+    have a4' := List.pairwise_cons.mp a4
+    have hbh := a3 h List.mem_cons_self
+    simp only [markRun]
+    split
+    · -- the run ends
+      rename_i hne
+      apply ih
+      · intro x hx
+        rcases List.mem_append.mp hx with e | e
+        · rw [(a2 x e).1]; exact hbh
+        · rcases List.mem_cons.mp e with e | e
+          · subst e; exact hbh
+          · exact keyLe_trans (a1 x e) hbh
+      · intro x hx; cases hx
+      · exact a4'.1
+      · exact a4'.2
+      · intro x hx hs
+        rcases List.mem_append.mp hx with e | e
+        · have := (a2 x e).2; omega
+        · rcases List.mem_cons.mp e with e | e
+          · subst e; exact fun e' => hne e'.symm
+          · intro e'
+            apply hne
+            have h1 := a1 x e
+            rw [e'] at h1
+            exact keyLe_antisymm h1 hbh
+      · rw [List.pairwise_append, List.pairwise_cons]
+        refine ⟨?_, ⟨fun b hb hs hb' e => a5 b hb hb' e.symm, a6⟩, ?_⟩
+        · apply List.Pairwise.imp_of_mem _ (List.pairwise_of_forall (R := fun _ _ => True) (fun _ _ => trivial))
+          intro a b ha _ _ ha' _
+          have := (a2 a ha).2
+          omega
+        · intro a ha b _ ha' _
+          have := (a2 a ha).2
+          omega
+    · rename_i heq
+      have hk' : key h = key best := by simpa using heq
+      split
+      · -- a higher score: the former best is marked
+        apply ih
+        · intro x hx
+          rw [hk']
+          rcases List.mem_append.mp hx with e | e
+          · rw [(a2 x e).1]; exact keyLe_refl _
+          · rcases List.mem_cons.mp e with e | e
+            · subst e; rw [hk best (-1)]; exact keyLe_refl _
+            · exact a1 x e
+        · intro x hx; cases hx
+        · exact a4'.1
+        · exact a4'.2
+        · intro x hx hs
+          rw [hk']
+          rcases List.mem_append.mp hx with e | e
+          · have := (a2 x e).2; omega
+          · rcases List.mem_cons.mp e with e | e
+            · subst e; simp at hs
+            · exact a5 x e hs
+        · rw [List.pairwise_append, List.pairwise_cons]
+          refine ⟨?_, ⟨fun b _ hs => by simp at hs, a6⟩, ?_⟩
+          · apply List.Pairwise.imp_of_mem _ (List.pairwise_of_forall (R := fun _ _ => True) (fun _ _ => trivial))
+            intro a b ha _ _ ha' _
+            have := (a2 a ha).2
+            omega
+          · intro a ha b _ ha' _
+            have := (a2 a ha).2
+            omega
+      · -- not higher: `h` is marked
+        apply ih acc best ({ h with score := -1 } :: mid) a1
+        · intro x hx
+          rcases List.mem_cons.mp hx with e | e
+          · subst e; exact ⟨by rw [hk h (-1)]; exact hk', by simp⟩
+          · exact a2 x e
+        · intro y hy; exact a3 y (List.mem_cons_of_mem _ hy)
+        · exact a4'.2
+        · exact a5
+        · exact a6
+
+/-- one marking pass over a list sorted lexicographically by the key leaves at most one hit with a
+    score `≥ 0` per key -/
+theorem markRuns_distinct (key : Hit → Int × Int) (hk : KeyIgnoresScore key) (l : List Hit)
+    (hs : l.Pairwise (fun a b => keyLe (key a) (key b))) : (markRuns key l).Pairwise (NoShare key) := by
+  cases l with
+  | nil => simp [markRuns]
+  | cons x rest =>
+    have hc := List.pairwise_cons.mp hs
+    exact markRun_distinct key hk rest [] x [] (by simp) (by simp) hc.1 hc.2 (by simp) List.Pairwise.nil
+
+/-- **the two passes**: when the two sorts return permutations sorted by `(Abpos, Bbpos)`, resp.
+    `(Aepos, Bepos)`, no two returned hits share a start point and no two share an end point -/
+theorem suppress_distinct (sortStart sortEnd : List Hit → List Hit)
+    (p2 : ∀ l, (sortEnd l).Perm l)
+    (s1 : ∀ l, (sortStart l).Pairwise (fun a b => keyLe (a.abpos, a.bbpos) (b.abpos, b.bbpos)))
+    (s2 : ∀ l, (sortEnd l).Pairwise (fun a b => keyLe (a.aepos, a.bepos) (b.aepos, b.bepos)))
+    (segs : List Hit) :
+    (suppress sortStart sortEnd segs).Pairwise
+      (fun a b => (a.abpos, a.bbpos) ≠ (b.abpos, b.bbpos) ∧ (a.aepos, a.bepos) ≠ (b.aepos, b.bepos)) := by
+  have kS : KeyIgnoresScore (fun h => (h.abpos, h.bbpos)) := fun _ _ => rfl
+  have kE : KeyIgnoresScore (fun h => (h.aepos, h.bepos)) := fun _ _ => rfl
+  have d1 := markRuns_distinct (fun h => (h.abpos, h.bbpos)) kS (sortStart segs) (s1 segs)
+  have d1' := (p2 (markRuns (fun h => (h.abpos, h.bbpos)) (sortStart segs))).symm.pairwise d1 NoShare.symm
+  have d2s := markRuns_pairwise (fun h => (h.aepos, h.bepos)) (noShare_markClosed _) _ d1'
+  have d2e := markRuns_distinct (fun h => (h.aepos, h.bepos)) kE _
+    (s2 (markRuns (fun h => (h.abpos, h.bbpos)) (sortStart segs)))
+  have both := d2s.and d2e
+  unfold suppress
+  simp only []
+  apply List.Pairwise.imp_of_mem _ (both.filter _)
+  intro a b ha hb h
+  simp only [List.mem_filter, decide_eq_true_eq] at ha hb
+  exact ⟨h.1 ha.2 hb.2, h.2 ha.2 hb.2⟩
+
 end Biogo.PalsOracle
